@@ -379,28 +379,5 @@ func suiteRange(o *Out, r *Rng, n int, tier string) {
 }
 
 func replayRange(o *Out, lines []string) {
-	open := false
-	for _, l := range lines {
-		ws := strings.Fields(l)
-		if len(ws) == 0 {
-			continue
-		}
-		switch ws[0] {
-		case "case":
-			o.Case("range")
-			open = true
-		case "op":
-			if !open {
-				o.Case("range")
-				open = true
-			}
-			runRangeOp(o, nil, ws[1:])
-		case "end":
-			o.End()
-			open = false
-		}
-	}
-	if open {
-		o.End()
-	}
+	replayStateless(o, "range", lines, func(o *Out, ws []string) { runRangeOp(o, nil, ws) })
 }
